@@ -100,6 +100,9 @@ def wide_documents(draw, max_subnets=9, extras=True):
         for j in range(N):
             if i != j and topo[i][j] == 1:
                 firewall[(i, j)] = list(srvs) if _coin(draw, 0.85) else [s_ for s_ in srvs if _coin(draw, 0.5)]
+    if _coin(draw, 0.25):
+        order_h = draw(st.permutations(addrs))
+        hostcfg = {a: hostcfg[a] for a in order_h}
     doc = dict(subnets=sizes, topology=topo, sensitive_hosts=sensitive, os=oss, services=srvs, processes=procs,
                exploits=exploits, privilege_escalation=privescs,
                service_scan_cost=draw(st.sampled_from(SCAN_COSTS)), os_scan_cost=1,
@@ -153,6 +156,15 @@ def documents(draw, max_subnets=4, max_size=3, max_hosts=7, extras=True,
     nsrv = draw(st.integers(1, 3))
     nproc = draw(st.integers(1, 3))
     oss, srvs, procs = OS_POOL[:nos], SRV_POOL[:nsrv], PROC_POOL[:nproc]
+    if _coin(draw, 0.12):
+        # names are arbitrary: the same name may denote a service and a process (or an OS)
+        which = draw(st.integers(0, 2))
+        if which == 0:
+            procs = [srvs[0]] + procs[1:]
+        elif which == 1:
+            procs = procs[:-1] + [srvs[-1]]
+        else:
+            oss = oss[:-1] + [srvs[0]]
     addrs = [(s + 1, h) for s in range(n) for h in range(sizes[s])]
     q = draw(st.sampled_from([0.3, 0.7, 0.7, 1.0]))      # permissiveness
     probs = st.sampled_from(PROBS)
@@ -236,6 +248,10 @@ def documents(draw, max_subnets=4, max_size=3, max_hosts=7, extras=True,
                 if t not in seen and topo[s][t] == 1:
                     seen.add(t)
                     frontier.append((s, t))
+    if _coin(draw, 0.25):
+        # the file may list the hosts in any order
+        order = draw(st.permutations(addrs))
+        hostcfg = {a: hostcfg[a] for a in order}
     doc = dict(
         subnets=sizes, topology=topo, sensitive_hosts=sensitive, os=oss,
         services=srvs, processes=procs, exploits=exploits,
